@@ -311,8 +311,13 @@ class Failure:
         self.detail = detail
 
 
+class SearchBudget(BaseException):
+    """the failing-input search used up its wall-clock budget (partial results are kept)"""
+
+
 class Ctx:
     def __init__(self, prop: str, tier: str, seed: int, worker: int = 0, workers: int = 1):
+        self.deadline = None            # set for the failing-input search only: time.time() after which `case` stops the search
         self.prop = prop
         self.tier = tier
         self.seed = seed
@@ -361,6 +366,8 @@ class Ctx:
 
     def case(self, case, nontrivial: bool = True):
         """Count one evaluated case; distinct non-trivial cases are counted by hashing their canonical form."""
+        if self.deadline is not None and time.time() > self.deadline:
+            raise SearchBudget()
         self.evaluations += 1
         if nontrivial:
             h = hashlib.sha1(json.dumps(case, sort_keys=True, default=str).encode()).digest()[:10]
